@@ -6,6 +6,7 @@ package main
 import (
 	"bytes"
 	"encoding/hex"
+	"encoding/json"
 	"fmt"
 	"math/big"
 	"sort"
@@ -57,6 +58,7 @@ type Exec struct {
 	snapGraph [][2]int
 	snapSpec  []edge
 	snapP     *tables
+	snapKeys  []string
 	sampled   [][]int
 	packed    []int
 	seq       int
@@ -123,8 +125,19 @@ func (e *Exec) newWorld(kv map[string]string) error {
 	w.Keys = []string{"k0", "k1", "k2", "k3", "k4", "k5"}
 	g := &chainlib.Genesis{Alloc: map[string]string{}, NoFee: !w.Fee, Award: "0", MaxBlockMB: w.MaxMB}
 	if w.Fee {
-		g.Award = "50"
 		w.Award = 50
+		if a, ok := kv["award"]; ok {
+			w.Award = int64(atoi(a))
+		}
+		g.Award = fmt.Sprint(w.Award)
+		// decay=<gap>:<num>/<den>: the award is multiplied by num/den every gap blocks
+		if d, ok := kv["decay"]; ok {
+			var gap, num, den int64
+			if n, _ := fmt.Sscanf(d, "%d:%d/%d", &gap, &num, &den); n != 3 || den <= 0 || gap < 0 {
+				return fmt.Errorf("bad decay %q", d)
+			}
+			w.Gap, w.Num, w.Den = gap, num, den
+		}
 	}
 	rt := &TxInfo{Coinbase: true, From: "-"}
 	for i := range w.Users {
@@ -134,13 +147,30 @@ func (e *Exec) newWorld(kv map[string]string) error {
 		rt.Outs = append(rt.Outs, OutInfo{Addr: fmt.Sprintf("u%d", i), Amt: 1000})
 	}
 	e.w = w
+	gj := g.JSON()
+	if w.Gap != 0 {
+		m := map[string]interface{}{}
+		if err := json.Unmarshal(gj, &m); err != nil {
+			return err
+		}
+		m["award_decay"] = map[string]interface{}{"height_gap": w.Gap, "ratio": float64(w.Num) / float64(w.Den)}
+		gj, _ = json.Marshal(m)
+	}
+	w.Genesis = gj
 	var err error
-	if w.P, err = chainlib.NewNode(e.scratch, "prod", g.JSON(), w.Miners[0]); err != nil {
+	if w.P, err = chainlib.NewNode(e.scratch, "prod", gj, w.Miners[0]); err != nil {
 		return err
 	}
-	if w.R, err = chainlib.NewNode(e.scratch, "repl", g.JSON(), w.Miners[1]); err != nil {
+	if w.R, err = chainlib.NewNode(e.scratch, "repl", gj, w.Miners[1]); err != nil {
 		return err
 	}
+	registerTick(w.P)
+	registerTick(w.R)
+	// the producer's miner talks to a scripted consensus and a network that records what is broadcast
+	w.Cons, w.Net = &scriptCons{signer: w.Miners[0]}, newCaptureNet()
+	w.P.Ctx.Consensus = w.Cons
+	w.P.Ctx.EngCtx.Net = w.Net
+	w.Miner = miner.NewMiner(w.P.Ctx)
 	rb, err := w.P.L.QueryBlock(w.P.L.GetMeta().RootBlockid)
 	if err != nil {
 		return err
@@ -158,12 +188,19 @@ func (e *Exec) newWorld(kv map[string]string) error {
 // ---------------------------------------------------------------- building real transactions
 
 func (e *Exec) absorbRW(t *TxInfo, r *chainlib.PreExecResult) error {
+	return e.absorbExt(t, r.Inputs, r.Outputs)
+}
+
+// absorbExt records the key accesses of a transaction (the $xvkv bucket and the timer bucket) in op-line terms.
+func (e *Exec) absorbExt(t *TxInfo, ins []*protos.TxInputExt, outs []*protos.TxOutputExt) error {
 	t.KIn, t.KOut = nil, nil
-	for _, in := range r.Inputs {
-		if in.Bucket != chainlib.KVBucket {
+	for _, in := range ins {
+		name := nameOfKey(in.Bucket, in.Key)
+		if name == "" {
 			continue
 		}
-		ki := KIn{Key: string(in.Key), VTx: -1}
+		e.w.addKey(name)
+		ki := KIn{Key: name, VTx: -1}
 		if in.RefTxid != nil {
 			idx, ok := e.w.TxByID[string(in.RefTxid)]
 			if !ok {
@@ -173,18 +210,42 @@ func (e *Exec) absorbRW(t *TxInfo, r *chainlib.PreExecResult) error {
 		}
 		t.KIn = append(t.KIn, ki)
 	}
-	for _, o := range r.Outputs {
-		if o.Bucket != chainlib.KVBucket {
+	for _, o := range outs {
+		name := nameOfKey(o.Bucket, o.Key)
+		if name == "" {
+			// the offsets of key versions count every output: keep the slot
+			t.KOut = append(t.KOut, KOut{Key: "X." + o.Bucket, Val: "x"})
 			continue
 		}
-		ko := KOut{Key: string(o.Key), Val: string(o.Value)}
+		e.w.addKey(name)
+		ko := KOut{Key: name, Val: string(o.Value)}
 		if string(o.Value) == delFlag {
 			ko.Del, ko.Val = true, ""
+		} else if o.Bucket == timerBucket {
+			ko.Val = timerVal(o.Key, o.Value)
 		}
 		t.KOut = append(t.KOut, ko)
 	}
 	return nil
 }
+
+// timerVal renders the value of a timer-bucket row for op lines: the task counter as it is, a task as #<prog>.
+func timerVal(key, val []byte) string {
+	if string(key) == "id" {
+		return string(val)
+	}
+	var trig struct {
+		Args map[string]interface{} `json:"args"`
+	}
+	if json.Unmarshal(val, &trig) != nil {
+		return "#?"
+	}
+	prog, _ := trig.Args["prog"].(string)
+	return "#" + encProg(prog)
+}
+
+func encProg(p string) string { return strings.ReplaceAll(strings.ReplaceAll(p, " ", "_"), ";", "+") }
+func decProg(p string) string { return strings.ReplaceAll(strings.ReplaceAll(p, "_", " "), "+", ";") }
 
 func (e *Exec) build(t *TxInfo) error {
 	w := e.w
@@ -195,8 +256,21 @@ func (e *Exec) build(t *TxInfo) error {
 	tx := &pb.Transaction{Version: 3, Nonce: fmt.Sprintf("n%d", t.Idx), Timestamp: int64(1000 + t.Idx), Desc: []byte(desc),
 		Initiator: w.AddrOf[t.From], AuthRequire: []string{w.AddrOf[t.From]}}
 	if t.Prog != "" {
-		prog := strings.ReplaceAll(strings.ReplaceAll(t.Prog, "_", " "), "+", ";")
-		r := w.P.PreExecKV(w.AddrOf[t.From], prog)
+		r := w.P.PreExecKV(w.AddrOf[t.From], decProg(t.Prog))
+		if r.Err != nil {
+			return r.Err
+		}
+		if err := e.absorbRW(t, r); err != nil {
+			return err
+		}
+		tx.ContractRequests, tx.TxInputsExt, tx.TxOutputsExt = r.Requests, r.Inputs, r.Outputs
+	} else if t.Timer != "" {
+		// $timer_task.Add(block_height, trigger = run the $xvkv program at that height)
+		i := strings.Index(t.Timer, ":")
+		if i <= 0 {
+			return fmt.Errorf("bad timer %q", t.Timer)
+		}
+		r := preExecKernel(w.P, w.AddrOf[t.From], timerContract, "Add", timerAddArgs(atoi(t.Timer[:i]), decProg(t.Timer[i+1:])))
 		if r.Err != nil {
 			return r.Err
 		}
@@ -232,7 +306,9 @@ func (e *Exec) build(t *TxInfo) error {
 
 // ---------------------------------------------------------------- observation
 
-func (e *Exec) tablesOf(n *chainlib.Node) *tables {
+func (e *Exec) tablesOf(n *chainlib.Node) *tables { return e.tablesOfKeys(n, e.w.Keys) }
+
+func (e *Exec) tablesOfKeys(n *chainlib.Node, keys []string) *tables {
 	t := &tables{Total: n.S.GetTotal().String()}
 	for _, r := range n.ScanTable(pb.UTXOTablePrefix) {
 		k := r[0][1:]
@@ -261,20 +337,22 @@ func (e *Exec) tablesOf(n *chainlib.Node) *tables {
 		}
 		return t.U[i].Off < t.U[j].Off
 	})
-	for _, k := range e.w.Keys {
+	for _, k := range keys {
 		t.KV = append(t.KV, k+":"+e.kvStr(n, k))
 	}
 	return t
 }
 
 func (e *Exec) kvStr(n *chainlib.Node, k string) string {
-	v, rt, off, err := n.KVGet(k)
+	bucket, key := bucketOf(k)
+	vd, err := n.S.CreateXMReader().Get(bucket, []byte(key))
 	if err != nil {
 		return "err"
 	}
-	if rt == nil {
+	if vd == nil || vd.PureData == nil || vd.RefTxid == nil {
 		return "-"
 	}
+	v, rt, off := string(vd.PureData.Value), vd.RefTxid, vd.RefOffset
 	ti, ok := e.w.TxByID[string(rt)]
 	ver := fmt.Sprintf("%d.%d", ti, off)
 	if !ok {
@@ -282,6 +360,9 @@ func (e *Exec) kvStr(n *chainlib.Node, k string) string {
 	}
 	if v == delFlag {
 		return "DEL@" + ver
+	}
+	if bucket == timerBucket {
+		v = timerVal([]byte(key), []byte(v))
 	}
 	return v + "@" + ver
 }
@@ -382,10 +463,11 @@ func (e *Exec) blockIDs(blk *pb.InternalBlock, prop string) []int {
 			ids = append(ids, i)
 			continue
 		}
-		t := &TxInfo{Coinbase: tx.Coinbase, From: "-"}
+		t := &TxInfo{Coinbase: tx.Coinbase, Autogen: tx.Autogen && !tx.Coinbase, From: "-"}
 		for _, o := range tx.TxOutputs {
 			t.Outs = append(t.Outs, OutInfo{Addr: e.name(o.ToAddr), Amt: new(big.Int).SetBytes(o.Amount).Int64()})
 		}
+		e.absorbExt(t, tx.TxInputsExt, tx.TxOutputsExt)
 		ids = append(ids, e.w.bindForeign(tx, t))
 	}
 	return ids
@@ -402,8 +484,8 @@ func (e *Exec) checkBlockShape(blk *pb.InternalBlock, who string) bool {
 	for _, tx := range blk.Transactions {
 		if tx.Coinbase {
 			cb++
-			if len(tx.TxOutputs) < 1 || new(big.Int).SetBytes(tx.TxOutputs[0].Amount).Int64() != e.w.Award {
-				e.violate("award-invalid", fmt.Sprintf("%s: award amount differs from the configured award %d at height %d", who, e.w.Award, blk.Height))
+			if len(tx.TxOutputs) < 1 || new(big.Int).SetBytes(tx.TxOutputs[0].Amount).Cmp(big.NewInt(e.w.specAward(blk.Height))) != 0 {
+				e.violate("award-invalid", fmt.Sprintf("%s: the award of the block at height %d is %s, the schedule of the genesis configuration gives %d", who, blk.Height, awardOf(blk), e.w.specAward(blk.Height)))
 				ok = false
 			} else if string(tx.TxOutputs[0].ToAddr) != string(blk.Proposer) {
 				e.violate("award-invalid", who+": the award is not paid to the proposer of the block")
@@ -430,6 +512,12 @@ func (e *Exec) checkBlockShape(blk *pb.InternalBlock, who string) bool {
 
 // formatBlock builds a block of the producer (award first) with the given pending transactions in the given order.
 func (e *Exec) formatBlock(n *chainlib.Node, prop *xvlib.Account, order []int) (*pb.InternalBlock, error) {
+	return e.formatBlockT(n, prop, order, false)
+}
+
+// withTimer: the block also carries the timer transaction the node generates for its height (what a real peer's miner
+// does; forced-order blocks of the check phase carry the pending transactions only).
+func (e *Exec) formatBlockT(n *chainlib.Node, prop *xvlib.Account, order []int, withTimer bool) (*pb.InternalBlock, error) {
 	var list []*pb.Transaction
 	for _, i := range order {
 		t := e.w.Txs[i]
@@ -444,6 +532,15 @@ func (e *Exec) formatBlock(n *chainlib.Node, prop *xvlib.Account, order []int) (
 	hd, err := n.L.QueryBlockHeader(pre)
 	if err != nil {
 		return nil, err
+	}
+	if withTimer {
+		auto, err := n.S.GetTimerTx(hd.Height + 1)
+		if err != nil {
+			return nil, err
+		}
+		if auto != nil && len(auto.TxOutputsExt) > 0 {
+			list = append([]*pb.Transaction{auto}, list...)
+		}
 	}
 	return n.MakeBlock(prop, pre, hd.Height+1, list, time.Now().UnixNano())
 }
@@ -471,7 +568,7 @@ func (e *Exec) defineTx(pos []string, kv map[string]string) (*TxInfo, string) {
 	if len(pos) < 1 {
 		return nil, "bad-op"
 	}
-	t := &TxInfo{Idx: atoi(pos[0]), From: kv["from"], Prog: kv["prog"], Pad: atoi(kv["pad"]), Ins: parseIns(kv["in"]), Outs: parseOuts(kv["out"])}
+	t := &TxInfo{Idx: atoi(pos[0]), From: kv["from"], Prog: kv["prog"], Timer: kv["timer"], Pad: atoi(kv["pad"]), Ins: parseIns(kv["in"]), Outs: parseOuts(kv["out"])}
 	if _, dup := e.w.Txs[t.Idx]; dup {
 		return nil, "bad-index"
 	}
@@ -529,9 +626,23 @@ func (e *Exec) exec1(op string, pos []string, kv map[string]string, line string)
 		e.submit(t)
 		return "-"
 	case "fblock":
-		return e.opForeign(parseIDs(kv["txs"]))
+		return e.opForeign(parseIDs(kv["txs"]), kv["lazy"] == "1")
 	case "pack":
 		return e.opPack()
+	case "mine":
+		return e.opMine(kv)
+	case "task":
+		return e.opTask(pos, kv)
+	case "award":
+		return e.opAward(pos)
+	case "height":
+		if len(pos) != 1 {
+			return "bad-op"
+		}
+		if w.P.L.GetMeta().TrunkHeight == int64(atoi(pos[0])) {
+			return "ok"
+		}
+		return "differ"
 	case "sync":
 		return e.opSync()
 	case "utxo":
@@ -595,9 +706,11 @@ func realEdges(g [][2]int) []edge {
 
 // ---------------------------------------------------------------- ops
 
-func (e *Exec) opForeign(ids []int) string {
+// lazy: the producer only confirms the block in its ledger (Miner.batchConfirmBlock); its state follows when the next
+// mining round walks to the ledger tip.
+func (e *Exec) opForeign(ids []int, lazy bool) string {
 	w := e.w
-	blk, err := e.formatBlock(w.R, w.Miners[1], ids)
+	blk, err := e.formatBlockT(w.R, w.Miners[1], ids, true)
 	if err != nil {
 		return "error:" + err.Error()
 	}
@@ -608,6 +721,7 @@ func (e *Exec) opForeign(ids []int) string {
 	if err != nil {
 		return "error:" + err.Error()
 	}
+	registerTick(c)
 	stage, err := e.receive(c, blk, true)
 	kvmem.Drop(c.Root)
 	if err != nil {
@@ -615,6 +729,21 @@ func (e *Exec) opForeign(ids []int) string {
 	}
 	if stage, err := e.receive(w.R, blk, true); err != nil {
 		return "error:replica-" + stage
+	}
+	if lazy {
+		for i, tx := range blk.Transactions {
+			if !w.P.L.IsValidTx(i, tx, blk) {
+				return "error:producer-validtx"
+			}
+		}
+		if ok, _ := w.P.L.VerifyBlock(blk, "xv"); !ok {
+			return "error:producer-verify"
+		}
+		if st := w.P.L.ConfirmBlock(chainlib.CloneBlock(blk), false); !st.Succ {
+			return "error:producer-confirm"
+		}
+		e.out.Count("foreign-block-lazy")
+		return "-"
 	}
 	if stage, err := e.receive(w.P, blk, true); err != nil {
 		return "error:producer-" + stage
@@ -650,6 +779,7 @@ func (e *Exec) opSync() string {
 	if e.base, err = w.R.OpenCopy(e.scratch, fmt.Sprintf("base%d", e.seq)); err != nil {
 		return "error:" + err.Error()
 	}
+	registerTick(e.base)
 	e.snapPool, e.snapNodes = nil, nil
 	for _, i := range e.admitted {
 		e.snapPool = append(e.snapPool, w.Txs[i])
@@ -691,6 +821,7 @@ func (e *Exec) opSync() string {
 			}
 		}
 	}
+	e.snapKeys = append([]string{}, w.Keys...)
 	e.snapP = e.tablesOf(w.P)
 	e.sampled, e.packed = nil, nil
 	return "-"
@@ -757,6 +888,7 @@ func (e *Exec) opReplay(order []int) string {
 		return "error:" + err.Error()
 	}
 	defer kvmem.Drop(c.Root)
+	registerTick(c)
 	full := isPerm(order, e.snapNodes)
 	// a proper prefix of an order is what the size limit produces: it must be closed under the property's relation
 	respects := firstViolated(order, e.snapSpec) == nil && noDup(order) && subset(order, e.snapNodes)
@@ -777,14 +909,15 @@ func (e *Exec) opReplay(order []int) string {
 		return "ok"
 	}
 	// expected tables: the producer's tables (pool applied) + the award + the fees of the block
-	got := e.tablesOf(c)
+	got := e.tablesOfKeys(c, e.snapKeys) // (keys that appeared after the snapshot are not part of the comparison)
 	award := ids[0]
+	awardAmt := w.specAward(blk.Height)
 	var rest []uRow
 	fees := int64(0)
 	for _, r := range got.U {
 		if r.Tx == award {
-			if r.Addr != "m0" || r.Amt != fmt.Sprint(w.Award) {
-				e.violate("award-invalid", fmt.Sprintf("replica holds award row %s, expected m0:%d", r, w.Award))
+			if r.Addr != "m0" || r.Amt != fmt.Sprint(awardAmt) {
+				e.violate("award-invalid", fmt.Sprintf("replica holds award row %s, expected m0:%d", r, awardAmt))
 			}
 			continue
 		}
@@ -812,7 +945,7 @@ func (e *Exec) opReplay(order []int) string {
 	g2 := &tables{U: rest, KV: got.KV}
 	tp, _ := new(big.Int).SetString(e.snapP.Total, 10)
 	tg, _ := new(big.Int).SetString(got.Total, 10)
-	exp.Total = new(big.Int).Add(tp, big.NewInt(w.Award)).String()
+	exp.Total = new(big.Int).Add(tp, big.NewInt(awardAmt)).String()
 	g2.Total = tg.String()
 	if exp.String() != g2.String() {
 		if respects {
@@ -858,9 +991,8 @@ func (e *Exec) opPack() string {
 	}
 	poolBefore, _ := e.realPool()
 	spec := specEdges(e.txInfos(e.admitted))
-	m := miner.NewMiner(w.P.Ctx)
 	height := w.P.L.GetMeta().TrunkHeight + 1
-	blk, err := m.VerifPackBlock(w.P.Ctx, height, time.Now(), nil)
+	blk, err := w.Miner.VerifPackBlock(w.P.Ctx, height, time.Now(), nil)
 	if err != nil {
 		e.violate("pack-failed", "packBlock fails on a pool of admitted transactions: "+err.Error())
 		e.broken = true
